@@ -625,3 +625,115 @@ def mono_str(m) -> str:
 
 def mono_eq(a, b) -> bool:
     return a[0] == b[0] and a[1] == b[1]
+
+
+# ---------------------------------------------------------------------------
+# canonical algebraic form (E4, nested): sums of products over canonical atoms
+# ---------------------------------------------------------------------------
+
+def canon_expr(node, env: Optional[dict] = None, ones: tuple = ()):
+    """A hashable normal form of an arithmetic expression, equal for expressions that differ only by the order of
+    operands of + and *, by parenthesisation, by `a - b` vs `a + -b`, `a / b` vs `a * b**-1`, repeated factors vs powers,
+    numeric factors collected into one coefficient, and by local names in `env` (name -> ast node) being inlined.
+    Sums are NOT multiplied out (a*(b+c) and a*b+a*c are different forms).  `ones` names variables that stand for the number 1.
+
+    form := ('sum', ((coef, prod), ...))       -- at least two terms or a constant term
+          | ('prod', coef, ((atom, exp), ...)) -- inside a sum the coefficient is carried by the sum
+    atoms are ('sym', text) | ('call', name, (form, ...)) | ('pow', form, form) | nested 'sum' forms."""
+    env = env or {}
+    F = Fraction
+
+    def lift(n):  # -> list of (coef, {atom: exp})
+        c = _num(n)
+        if c is not None:
+            return [(c, {})]
+        if isinstance(n, ast.Name) and n.id in ones:
+            return [(F(1), {})]
+        if isinstance(n, ast.Name) and n.id in env:
+            return lift(env[n.id])
+        if isinstance(n, ast.UnaryOp) and isinstance(n.op, ast.USub):
+            return [(-c_, p) for c_, p in lift(n.operand)]
+        if isinstance(n, ast.UnaryOp) and isinstance(n.op, ast.UAdd):
+            return lift(n.operand)
+        if isinstance(n, ast.BinOp):
+            if isinstance(n.op, ast.Add):
+                return lift(n.left) + lift(n.right)
+            if isinstance(n.op, ast.Sub):
+                return lift(n.left) + [(-c_, p) for c_, p in lift(n.right)]
+            if isinstance(n.op, (ast.Mult, ast.Div)):
+                l, r = lift(n.left), lift(n.right)
+                sgn = 1 if isinstance(n.op, ast.Mult) else -1
+                lt = l[0] if len(l) == 1 else (F(1), {as_atom(l): F(1)})
+                rt = r[0] if len(r) == 1 else (F(1), {as_atom(r): F(1)})
+                if sgn == -1 and rt[0] == 0:
+                    raise NotLinear("division by zero literal")
+                coef = lt[0] * (rt[0] if sgn == 1 else 1 / rt[0])
+                p = dict(lt[1])
+                for a_, e_ in rt[1].items():
+                    p[a_] = p.get(a_, F(0)) + sgn * e_
+                return [(coef, {a_: e_ for a_, e_ in p.items() if e_ != 0})]
+            if isinstance(n.op, ast.Pow):
+                b = lift(n.left)
+                e = lift(n.right)
+                if len(e) == 1 and not e[0][1]:  # numeric exponent
+                    ex = e[0][0]
+                    if len(b) == 1:
+                        cb, pb = b[0]
+                        if ex.denominator == 1 and abs(ex) <= 64 and (cb != 0 or ex >= 0):
+                            return [(cb ** int(ex), {a_: e_ * ex for a_, e_ in pb.items()})]
+                        if cb == 1:
+                            return [(F(1), {a_: e_ * ex for a_, e_ in pb.items()})]
+                    return [(F(1), {as_atom(b): ex})]
+                return [(F(1), {("pow", finish(b), finish(e)): F(1)})]
+        if isinstance(n, ast.Call):
+            nm = dotted(n.func) or ast.unparse(n.func)
+            short = nm.split(".")[-1]
+            args = tuple(finish(lift(a)) for a in n.args if not isinstance(a, ast.Starred))
+            if len(args) != len(n.args) or n.keywords:
+                return [(F(1), {("sym", S(n)): F(1)})]
+            return [(F(1), {("call", short, args): F(1)})]
+        return [(F(1), {("sym", S(n)): F(1)})]
+
+    def norm_terms(terms):
+        acc = {}
+        for c_, p in terms:
+            key = tuple(sorted(p.items(), key=repr))
+            acc[key] = acc.get(key, F(0)) + c_
+        return tuple(sorted(((c_, k) for k, c_ in acc.items() if c_ != 0), key=repr))
+
+    def as_atom(terms):
+        return finish(terms)
+
+    def finish(terms):
+        nt = norm_terms(terms)
+        if len(nt) == 1:
+            c_, k = nt[0]
+            return ("prod", c_, k)
+        return ("sum", nt)
+
+    return finish(lift(node))
+
+
+def canon_of(text: str, **kw):
+    return canon_expr(ast.parse(text, mode="eval").body, **kw)
+
+
+def canon_str(form) -> str:
+    """human-readable rendering of a canonical form (for messages)"""
+    def atom(a):
+        if a[0] == "sym":
+            return a[1]
+        if a[0] == "call":
+            return "%s(%s)" % (a[1], ", ".join(canon_str(x) for x in a[2]))
+        if a[0] == "pow":
+            return "(%s)**(%s)" % (canon_str(a[1]), canon_str(a[2]))
+        return "(%s)" % canon_str(a)
+
+    def prod(c, k):
+        parts = [] if (c == 1 and k) else [str(c) if c.denominator == 1 else "%g" % float(c)]
+        for a, e in k:
+            parts.append(atom(a) if e == 1 else "%s**%s" % (atom(a), e))
+        return "*".join(parts)
+    if form[0] == "prod":
+        return prod(form[1], form[2])
+    return " + ".join(prod(c, k) for c, k in form[1])
